@@ -64,6 +64,10 @@ pub struct World {
 	/// every lock held (the rank of the sorting collections)
 	pub order_check: bool,
 	pub max_held_addr: usize,
+	/// C10: a flag to sample at the moment an exclusive hold is released (0 = none), and the samples
+	pub probe_flag: usize,
+	pub probe_samples: u8,
+	pub probe_all_set: bool,
 }
 
 pub static mut W: World = World::new();
@@ -91,6 +95,9 @@ impl World {
 			fault_class: 0,
 			order_check: false,
 			max_held_addr: 0,
+			probe_flag: 0,
+			probe_samples: 0,
+			probe_all_set: true,
 		}
 	}
 }
@@ -238,6 +245,17 @@ impl VState {
 
 	pub fn unlock_x(&self) {
 		self.log(OP_UNLOCK_X);
+		{
+			let w = w();
+			if w.probe_flag != 0 {
+				// sample the watched flag at the instant the exclusive hold ends (what the next holder can see)
+				let v = unsafe { (*(w.probe_flag as *const core::sync::atomic::AtomicBool)).load(core::sync::atomic::Ordering::Relaxed) };
+				w.probe_samples += 1;
+				if !v {
+					w.probe_all_set = false;
+				}
+			}
+		}
 		// C05: never release a lock the calling thread does not hold, and only in its mode
 		assert!(self.mine.get() == EXCL, "U_release_matches_hold: exclusive release of a lock not held exclusively by this thread");
 		self.mine.set(NONE);
